@@ -37,21 +37,28 @@ SHARE = ["write", "reset", "swap", "reverse", "permute", "sort", "slice", "iter"
          "vaddv"]
 NOSLICE = [o for o in ALL if o not in ("slice", "append")]
 VECOPS = ["vaddv", "vsubv", "vmulv", "set"]
+# histories of a matrix (row-major storage, Cols columns) observed through column/row-sliced views
+VIEW = ["write", "reset", "swap", "iter", "next", "walk", "vwalk", "vmuls"]
+# a second vector with its own history is appended (sparse of the same / another element type, or dense)
+APPEND2 = ["write", "swap", "permute", "reverse", "sort", "reset", "walk", "new2", "appendo"]
+APPEND2L = ["write", "swap", "permute", "walk", "new2", "appendo"]
 
 
 def opset(ops):
     return "{" + ", ".join('"%s"' % o for o in ops) + "}"
 
 
-def K(N0, MaxN, NIter, MaxObj, WMax, ops):
-    return dict(N0=N0, MaxN=MaxN, NIter=NIter, MaxObj=MaxObj, WMax=WMax, ops=ops)
+def K(N0, MaxN, NIter, MaxObj, WMax, ops, Cols=0):
+    return dict(N0=N0, MaxN=MaxN, NIter=NIter, MaxObj=MaxObj, WMax=WMax, ops=ops, Cols=Cols)
 
 
 PLAN = {
     "quick": dict(
         # exhaustive, one replay case per transition
         emit=[("all1", K(3, 3, 1, 1, 1, ALL)), ("it2", K(3, 3, 2, 1, 1, ITER)),
-              ("share2", K(2, 2, 1, 2, 1, [o for o in SHARE if o != "permute"]))],
+              ("share2", K(2, 2, 1, 2, 1, [o for o in SHARE if o != "permute"])),
+              ("view4", K(4, 4, 1, 1, 1, ["write", "reset", "swap", "walk", "vwalk"], Cols=2)),
+              ("app2a", K(1, 3, 1, 2, 1, APPEND2)), ("app2d", K(2, 3, 1, 2, 1, APPEND2L))],
         dense=["all1"],
         # exhaustive refinement check only
         check=[],
@@ -61,7 +68,10 @@ PLAN = {
         record=(2, 300, 16), workers=8),
     "thorough": dict(
         emit=[("all1", K(3, 3, 1, 1, 3, ALL)), ("it2", K(3, 3, 2, 1, 1, CORE)), ("grow", K(2, 4, 1, 1, 1, CORE)),
-              ("share2", K(2, 2, 1, 2, 1, SHARE)), ("four2", K(4, 4, 2, 1, 1, ITER))],
+              ("share2", K(2, 2, 1, 2, 1, SHARE)), ("four2", K(4, 4, 2, 1, 1, ITER)),
+              ("view3", K(3, 3, 1, 1, 1, VIEW, Cols=3)), ("view4", K(4, 4, 1, 1, 1, VIEW, Cols=2)),
+              ("view6", K(6, 6, 1, 1, 1, ["write", "swap", "walk", "vwalk"], Cols=3)),
+              ("app2c", K(2, 4, 1, 2, 1, APPEND2L)), ("app2", K(2, 4, 1, 2, 1, APPEND2 + ["iter", "next"]))],
         dense=["all1"],
         check=[("it2grow", K(3, 4, 2, 1, 1, CORE)), ("share3", K(3, 3, 1, 2, 1, SHARE))],
         sim=[("sim", K(4, 6, 2, 2, 2, ALL), 400, 40), ("simit", K(5, 5, 2, 1, 2, NOSLICE), 400, 50),
@@ -75,12 +85,12 @@ OP_EVENTS = {"append": ["appends", "appendv"], "slice": ["slice"]}
 
 def consts_of(k, emit, emit_at=0):
     return {"N0": str(k["N0"]), "MaxN": str(k["MaxN"]), "NIter": str(k["NIter"]), "MaxObj": str(k["MaxObj"]),
-            "WMax": str(k["WMax"]), "Ops": opset(k["ops"]), "Emit": "TRUE" if emit else "FALSE",
+            "WMax": str(k["WMax"]), "Cols": str(k.get("Cols", 0)), "Ops": opset(k["ops"]), "Emit": "TRUE" if emit else "FALSE",
             "EmitAt": str(emit_at), "SwapBug": "FALSE", "StaleBug": "FALSE", "SliceBug": "FALSE"}
 
 
 def bounds_of(k):
-    return {a: k[a] for a in ("N0", "MaxN", "NIter", "MaxObj", "WMax")}
+    return {a: k[a] for a in ("N0", "MaxN", "NIter", "MaxObj", "WMax", "Cols")}
 
 
 def tlc(ctx, *a, **kw):
@@ -265,9 +275,9 @@ def run(ctx):
             raise vlib.Infra("expected 9 sparse element types, found %s" % summ["types"])
         if summ["per_kind"].get("matrix", 0) == 0 or summ["per_kind"].get("vector", 0) == 0:
             raise vlib.Infra("vacuous: no matrix or no vector runs in " + label)
-        if k["MaxObj"] == 2 and summ.get("write_through_cases", 0) == 0:
+        if k["MaxObj"] == 2 and "slice" in k["ops"] and summ.get("write_through_cases", 0) == 0:
             raise vlib.Infra("vacuous: no case of %s writes through a scalar shared by a vector and its slice" % label)
-        if k["MaxObj"] == 2:
+        if k["MaxObj"] == 2 and "slice" in k["ops"]:
             ctx.extra["write_through_cases_" + label] = summ["write_through_cases"]
         bounds["exhaustive_replayed"].append(dict(label=label, states=res.distinct, cases=res.json_count,
                                                   ops=k["ops"], **bounds_of(k)))
@@ -402,7 +412,10 @@ MANIFEST = {
             "(iterator position, iteration sequences) and the private map/index invariants (no nil placeholder, every "
             "non-zero cell indexed, keys in range), and after the last call all read accessors, live iterator "
             "positions and continuations, a fresh iteration and String(); longer histories over length 4-6 come from "
-            "TLC simulation; seeded random histories of 300 operations over length 16 for every element type (vectors "
+            "TLC simulation; a second vector with its own history (same type, another sparse element type, dense) is "
+            "appended with AppendVector, and column/row-sliced views of sparse matrices are iterated (Iterator/"
+            "IteratorFrom/ConstIterator) and read while the parent is mutated by zero writes, Swap and Reset; "
+            "seeded random histories of 300 operations over length 16 for every element type (vectors "
             "and 4x4 matrices incl. SwapRows/SwapColumns) recorded from the real code are accepted by the contract's "
             "trace specification (binding self-test: four kinds of corruption are rejected). The pre-fix behaviours "
             "(Swap placeholder, Slice placeholder, stale iterators) are kept as switchable deviations and TLC must "
